@@ -251,11 +251,16 @@ def model_line(case, res=None):
         if v.get("vec"):
             c = v["cvcs"][0]
             idx = []
-            for ax in ((1.0, 0.0, 0.0), (0.0, 1.0, 0.0), (0.0, 0.0, 1.0)):
+            for kk, ax in enumerate(((1.0, 0.0, 0.0), (0.0, 1.0, 0.0), (0.0, 0.0, 1.0))):
                 c2 = {"kind": "distanceZ", "coeff": c.get("coeff", 1.0), "exp": 1, "params": {"pbc": c["params"]["pbc"], "axis": ax},
                       "groups": [c["groups"][1], c["groups"][0]]}
                 idx.append(len(mvars))
-                mvars.append({"width": v["width"], "cvcs": [c2]})
+                mv = {"width": v["width"], "cvcs": [c2]}
+                if case.get("cell") and c["params"]["pbc"]:
+                    # distance_vec::dist2 takes the minimum image of (value - centre): each projection is a periodic
+                    # scalar whose period is the cell edge
+                    mv["period"] = case["cell"][kk]
+                mvars.append(mv)
             vmap.append(idx)
         else:
             vmap.append([len(mvars)])
@@ -579,6 +584,8 @@ def var_period(v):
     """colvar::init: the restraint metric of a homogeneous variable is that of its first component"""
     if v.get("vec"):
         return 0.0
+    if v.get("period"):
+        return v["period"]
     homog = all(c.get("exp", 1) == 1 and abs(abs(c.get("coeff", 1.0)) - 1.0) < 1e-10 for c in v["cvcs"])
     # colvar::init_components walks global_cvc_map (a std::map keyed by the configuration keyword), so cvcs[0] is the
     # component with the alphabetically first keyword (config order among components of the same keyword)
@@ -652,7 +659,20 @@ def gen_case(r, kinds, opts):
                 # within 1.5 of the value so that the restraint metric is the plain difference (the model's)
                 c = v["cvcs"][0]
                 d, _ = mic(case, vsub(gcom(case, c["groups"][1]), gcom(case, c["groups"][0])), c["params"]["pbc"])
-                return tuple(round(c.get("coeff", 1.0) * x * 8) / 8.0 + V.dyadic(r, -1.5, 1.5, bits=3) for x in d)
+                wrapping = case.get("cell") and c["params"]["pbc"] and c.get("coeff", 1.0) == 1.0
+                out = []
+                for kk, x in enumerate(d):
+                    for _ in range(20):
+                        # with a cell the restraint takes the minimum image of value - centre (the model: a periodic scalar
+                        # with the cell edge as period); keep away from the half-cell cut; without wrapping stay close
+                        cc = round(c.get("coeff", 1.0) * x * 8) / 8.0 + V.dyadic(r, -7.0 if wrapping else -1.5, 7.0 if wrapping else 1.5, bits=3)
+                        if not wrapping:
+                            break
+                        y = (x - cc) / case["cell"][kk] + 0.5
+                        if min(y - math.floor(y), math.floor(y) + 1 - y) > 0.06:
+                            break
+                    out.append(cc)
+                return tuple(out)
             b = {"type": "harmonic", "k": r.choice([1.0, 2.0, 0.5, 10.0, 3.0]),
                  "terms": [(i, vec_centre(case["vars"][i]) if case["vars"][i].get("vec") else V.dyadic(r, -2, 6, bits=3)) for i in vis]}
         elif bt == "linear":
